@@ -104,6 +104,10 @@ type PQTracker struct {
 	hasWildcard bool
 	colNames    map[string]bool
 	PQNodes     map[string]*structs.SearchNode // maps pqid to search node
+
+	// some persistent query holds for a record that has none of its columns (!=, NOT): then
+	// every record is checked, not only the records that have a column of a persistent query
+	matchesNoColumns bool
 }
 
 func InitSegStore(segmentKey string, segbaseDir string, suffix uint64, virtualTableName string,
@@ -310,6 +314,10 @@ func (segstore *SegStore) resetSegStore(streamid string, virtualTableName string
 			segstore.pqMatches[pqid] = pqmr.CreatePQMatchResults(mrSize)
 		}
 		segstore.pqTracker.addSearchNode(pqid, pNode)
+		if !segstore.pqTracker.matchesNoColumns {
+			segstore.pqTracker.matchesNoColumns = applySearchSingleNode(map[string]*ColWip{}, pNode,
+				&sutils.DtypeEnclosure{}, config.GetTimeStampKey(), segstore)
+		}
 	}
 
 	promoted, demoted := utils.SetDifference(segstore.pqMatches, segstore.LastSegPqids)
@@ -1134,7 +1142,7 @@ func (segstore *SegStore) WritePackedRecord(rawJson []byte, ts_millis uint64,
 		return errors.New("unknown signal type")
 	}
 
-	if matchedPCols {
+	if matchedPCols || segstore.pqTracker.matchesNoColumns {
 		applyStreamingSearchToRecord(segstore, segstore.pqTracker.PQNodes, segstore.wipBlock.blockSummary.RecCount)
 	}
 
